@@ -100,6 +100,8 @@ fn run_dd(a: &Args, limits: &Limits, symbolic: bool, initial: &[(String, i64)]) 
                         hist_seed: a.num("hist_seed", gp.seed),
                         viz_all: a.flag("viz_all"),
                         props: a.list("props", ""),
+                        hist_solver_like: a.flag("hist_sym"),
+                        hist_width: a.num("hist_w", 0) as usize,
                     };
                     let rep = match ddname.as_str() {
                         "lel" => explore(limits, gp.seed, symbolic, initial, &mut || dd::body::<Mdd<St, { LAST_EXACT_LAYER }>>(&c)),
@@ -414,6 +416,8 @@ fn main() {
                     hist_seed: a.num("hist_seed", 0),
                     viz_all: false,
                     props: a.list("props", "C06,C08"),
+                    hist_solver_like: a.flag("hist_sym"),
+                    hist_width: a.num("hist_w", 0) as usize,
                 };
                 let mut hit = false;
                 for t in 0..tries {
